@@ -192,6 +192,29 @@ pub fn drive(args: &HashMap<String, String>) {
             progs.push((format!("searchorder{oi}:{sig}"), path, order.clone()));
         }
     }
+    // raw source text: bytes that an entry point might normalise before compiling (line endings, control characters,
+    // wide characters) inside string constants, in comments and between forms; the same bytes must reach the compiler
+    // whichever tool reads the file
+    {
+        let texts: Vec<(&str, String)> = vec![
+            ("crlf-in-string", "(mod (X) SIG(c \"a\r\nb\" X))".to_string()),
+            ("crlf-everywhere", "(mod (X)\r\n  SIG\r\n  (defun f (A)\r\n    (c \"two\r\nlines\" A)) ; note\r\n  (f X))\r\n".to_string()),
+            ("cr-in-string", "(mod (X) SIG(c \"a\rb\" X))".to_string()),
+            ("lf-in-string", "(mod (X) SIG(c \"a\nb\" X))".to_string()),
+            ("tab-ff-in-string", "(mod (X) SIG(c \"a\tb\u{c}c\" X))".to_string()),
+            ("wide-in-string", "(mod (X) SIG(c \"\u{e9}\u{4e2d}\u{1f600}\" X))".to_string()),
+            ("trailing-cr", "(mod (X) SIG(c \"s\" X))\r".to_string()),
+            ("cr-between-forms", "(mod (X)\rSIG\r(c \"s\" X))".to_string()),
+            ("crlf-in-comment-and-string", "(mod (X) SIG ; c\r\n (c \"x\r\n\r\ny\" (c \"\r\n\" X)))".to_string()),
+            ("nbsp-and-escapes", "(mod (X) SIG(c \"a\\\\b \u{a0} \\\"q\\\"\" X))".to_string()),
+        ];
+        for (name, t) in texts {
+            for sig in ["", "*standard-cl-21*", "*standard-cl-23*"] {
+                let inc = if sig.is_empty() { String::new() } else { format!("(include {sig}) ") };
+                add(format!("rawtext:{name}:{sig}"), t.replace("SIG", &inc), &mut progs);
+            }
+        }
+    }
     if let Some(p) = extra {
         for v in crate::util::read_ndjson(p) {
             add(v["name"].as_str().unwrap().to_string(), v["text"].as_str().unwrap().to_string(), &mut progs);
